@@ -642,6 +642,145 @@ func (g *c08gen) oddDates() *TNode {
 	return t
 }
 
+// ---------- fixed corpus of boundary shapes (runs first in every tier) ----------
+
+var c08sizes = []int{8, 9, 16, 17, 32, 33, 64, 65, 66, 67, 100, 128, 129, 130, 131, 256, 257, 258}
+
+func c08reverse(ks []*TNode) []*TNode {
+	out := make([]*TNode, len(ks))
+	for i, k := range ks {
+		out[len(ks)-1-i] = k.Clone()
+	}
+	return out
+}
+
+// c08corpus: sizes at and just past 8/16/32/64/100/128/256 in every size dimension of a diff —
+// children per node (with a repeated node at the last two indices, i.e. at index >= 64 / 128 / 256
+// for the sizes just past them), nesting depth, number of Equal siblings merged into one entry, and
+// the length of the flattened child list that Sort reads Years() from — each compared with a
+// reordered copy and with a copy in which one node differs, with String / Sort / IsDeepEqual;
+// awkward bytes in values and tags; one object at two positions; a flattened result fed back.
+func c08corpus(c *Ctx) {
+	under := func(holder string, ks []*TNode) *TNode {
+		if holder == "" {
+			return T("ZROOT", "", "", ks...)
+		}
+		return T("ZROOT", "", "", T("NAME", "John /Smith/", ""), T(holder, "", "", ks...))
+	}
+	// (a) children per node
+	for _, n := range c08sizes {
+		var ks []*TNode
+		for i := 0; i < n-2; i++ {
+			ks = append(ks, T("NOTE", fmt.Sprintf("n%d", i), ""))
+		}
+		ks = append(ks, T("OCCU", "farmer", ""), T("OCCU", "farmer", ""))
+		replaced := c08reverse(c08reverse(ks))
+		replaced[n-1] = T("OCCU", "miller", "")
+		for _, holder := range []string{"", "EVEN"} {
+			if holder != "" && n > 131 {
+				continue
+			}
+			ops := []string{"", "O"}
+			if n > 131 {
+				ops = []string{"SO"}
+			}
+			for _, o := range ops {
+				c08case(c, "corpus: children per node", under(holder, c08reverse(c08reverse(ks))), under(holder, c08reverse(ks)), o, 0)
+			}
+			c08case(c, "corpus: children per node", under(holder, c08reverse(c08reverse(ks))), under(holder, replaced), "E", 0)
+			c08case(c, "corpus: children per node", under(holder, replaced), under(holder, c08reverse(ks)), "S", 0)
+		}
+		c.Count(fmt.Sprintf("corpus: %d children, repeats at index %d and %d", n, n-2, n-1))
+	}
+	// (b) nesting depth
+	for _, depth := range []int{8, 9, 16, 17, 32, 33, 64, 65, 100, 128, 129, 256, 257} {
+		chain := func(last string) *TNode {
+			leaf := T("NOTE", last, "", T("OCCU", "a", ""), T("OCCU", "b", ""))
+			for i := depth - 2; i >= 0; i-- {
+				leaf = T([]string{"NOTE", "BIRT", "TITL", "OCCU"}[i%4], fmt.Sprintf("d%d", i%7), "", leaf)
+			}
+			return leaf
+		}
+		c08case(c, "corpus: nesting depth", chain("x"), chain("x"), "SO", 0)
+		c08case(c, "corpus: nesting depth", chain("x"), chain("y"), "OE", 0)
+		c.Count(fmt.Sprintf("corpus: depth %d", depth))
+	}
+	// (c) Equal siblings merged into one entry; (d) length of the flattened list Sort reads dates from
+	for _, k := range []int{8, 9, 16, 17, 32, 33, 64, 65, 100, 128, 129} {
+		var births, events []*TNode
+		for i := 0; i < k; i++ {
+			births = append(births, T("BIRT", "", "", T("NOTE", fmt.Sprintf("b%d", i), "")))
+			events = append(events, T("EVEN", "", "", T("DATE", "1900", ""), T("DATE", fmt.Sprint(1000+i), "")))
+		}
+		extra := []*TNode{T("RESI", "", "", T("DATE", "1850", "")), T("EVEN", "", "", T("DATE", "3 Sep 1943", "")), T("NAME", "John /Smith/", "")}
+		for fi, fam := range [][]*TNode{births, events} {
+			if fi == 1 && k > 65 { // DATE equality is the expensive part of the model: dated events up to 65
+				continue
+			}
+			l := T("ZROOT", "", "", append(c08reverse(c08reverse(fam)), c08reverse(extra)...)...)
+			r := T("ZROOT", "", "", append(c08reverse(extra), c08reverse(fam)...)...)
+			c08case(c, "corpus: Equal siblings", l, r, "O", 0)
+			r2 := r.Clone()
+			last := r2.Kids[len(r2.Kids)-1]
+			last.Kids[len(last.Kids)-1].Value = "1"
+			c08case(c, "corpus: Equal siblings", l.Clone(), r2, "SOE", 0)
+		}
+		c.Count(fmt.Sprintf("corpus: %d Equal siblings in one entry / flattened list of %d dates", k, k+1))
+	}
+	// (e) awkward bytes in values and tags
+	vals := []string{"@", "/", ",", "@@", "//", " ", "0", "00", "0000", "\xc3@", "\xe2/", "\xf0,", "\xff", "\xc3\xa9\xc3\xa8", "\xe6\x97\xa5\xe6\x9c\xac\xe8\xaa\x9e",
+		"x\xc2\xa0", "x\xe2\x80\x83", "x\xc2", "\xe2\x80", "a\tb", "@I1@", "/Smith/", "1 NOTE x", "-", "\x80\x80"}
+	tags := []string{"NOTE", "DATE", "PLAC", "NAME", "_\xc3\x89", "\xff", "0", "00", "A_B", "EVEN", "RESI", "_UID", "SEX"}
+	for i, v := range vals {
+		mk := func(order []int) *TNode {
+			t := T("ZROOT", v, "")
+			for _, j := range order {
+				tag := tags[(i+j)%len(tags)]
+				k := T(tag, vals[(i+j)%len(vals)], "")
+				if j%2 == 0 {
+					k.Kids = append(k.Kids, T(tags[(i+j+1)%len(tags)], v, ""), T("DATE", vals[(i+2*j)%len(vals)], ""))
+				}
+				t.Kids = append(t.Kids, k)
+			}
+			return t
+		}
+		c08case(c, "corpus: awkward bytes", mk([]int{0, 1, 2, 3, 4, 5}), mk([]int{5, 3, 4, 1, 0, 2}), "SOS", 0)
+		c08case(c, "corpus: awkward bytes", mk([]int{0, 1, 2, 3}), mk([]int{2, 7, 0, 9}), "OSE", 0)
+	}
+	// (f) one object at two positions among siblings (left), the right input a fresh or a sharing tree;
+	// (g) the flattened result of a diff fed back as an input
+	for _, k := range []int{2, 3, 9, 65} {
+		x := gedcom.NewNode(gedcom.TagBirth, "", "", gedcom.NewNode(gedcom.TagDate, "3 Sep 1943", ""), gedcom.NewNode(gedcom.TagPlace, "England", ""))
+		y := gedcom.NewNode(gedcom.TagNote, "a", "")
+		ln := gedcom.NewNode(gedcom.TagFromString("ZROOT"), "", "")
+		rn := gedcom.NewNode(gedcom.TagFromString("ZROOT"), "", "")
+		for i := 0; i < k; i++ {
+			ln.AddNode(x)
+			if i%2 == 0 {
+				ln.AddNode(y)
+			}
+			ln.AddNode(gedcom.NewNode(gedcom.TagFromString("OCCU"), fmt.Sprint(i), ""))
+		}
+		rn.AddNode(y)
+		rn.AddNode(gedcom.NewNode(gedcom.TagBirth, "", "", gedcom.NewNode(gedcom.TagPlace, "England", "")))
+		rn.AddNode(x)
+		c08run(c, "corpus: one object at several positions", ln, rn, "SOE")
+		c08run(c, "corpus: one object at several positions", rn, ln, "OS")
+		flat := func() (n gedcom.Node) {
+			defer func() {
+				if recover() != nil {
+					n = nil
+				}
+			}()
+			return gedcom.CompareNodes(ln, rn).LeftNode()
+		}()
+		if flat != nil {
+			c08run(c, "corpus: flattened result fed back", flat, rn, "SO")
+			c08run(c, "corpus: flattened result fed back", ln, flat, "E")
+		}
+	}
+}
+
 // ---------- inputs that share node objects; inputs edited between two diffs ----------
 
 // c08build builds real nodes and remembers which object was built for which abstract node
@@ -805,6 +944,47 @@ func c08history(c *Ctx, g *c08gen) {
 			script = append(script, fmt.Sprintf("right %s: SetNodes(… %s %s -> %s …)", f.parent.Tag, f.child.Tag, f.child.Value, f.value))
 		}
 	}
+	// an earlier operation that failed: Tag() of an empty diff dereferences nil; recovered
+	if g.r.Chance(1, 4) {
+		func() {
+			defer func() { recover() }()
+			gedcom.CompareNodes(nil, nil).Tag()
+		}()
+		script = append(script, "CompareNodes(nil, nil).Tag() panicked and was recovered")
+	}
+	// an edit two levels below a node whose Equals reads its descendants: a grandchild of an undated
+	// EVEN (Equals = DeepEqualNodes of the children) or of a dateless RESI (places)
+	if g.r.Chance(1, 2) {
+		for _, side := range []struct {
+			root gedcom.Node
+			name string
+		}{{ln, "left"}, {rn, "right"}} {
+			if side.name == "right" && g.r.Bool() {
+				continue
+			}
+			u := gedcom.NewNode(gedcom.TagFromString(g.r.Pick([]string{"EVEN", "RESI"})), "", "",
+				gedcom.NewNode(gedcom.TagPlace, "Leeds", "", gedcom.NewNode(gedcom.TagNote, "old", "")))
+			side.root.AddNode(u)
+			gedcom.Dates(u)
+			gedcom.Dates(u)
+			c08equals(u, u)
+			c08equals(u, u)
+			plac := u.Nodes()[0]
+			plac.DeleteNode(plac.Nodes()[0])
+			v := g.r.Pick([]string{"new", "old"})
+			plac.AddNode(gedcom.NewNode(gedcom.TagNote, v, ""))
+			script = append(script, fmt.Sprintf("%s: AddNode(%s{PLAC Leeds{NOTE old}}), looked up twice, then grandchild NOTE old -> %s", side.name, u.Tag().Tag(), v))
+		}
+	}
+	// the caller reorders the slice returned by Nodes() in place (no API call tells the node)
+	if g.r.Chance(1, 3) && len(lt.Kids) > 1 {
+		p := lm[lt.Kids[1]]
+		ns := p.Nodes()
+		for i, j := 0, len(ns)-1; i < j; i, j = i+1, j-1 {
+			ns[i], ns[j] = ns[j], ns[i]
+		}
+		script = append(script, fmt.Sprintf("left %s: the slice returned by Nodes() reversed in place", lt.Kids[1].Tag))
+	}
 	// and some edits that make the sides differ: a date of a left event changed or removed
 	if g.r.Chance(1, 2) && len(lt.Kids) > 1 {
 		e := lt.Kids[1+g.r.Intn(len(lt.Kids)-1)]
@@ -862,7 +1042,9 @@ func c08number(root gedcom.Node) *c08side {
 	s := &c08side{root: root, ids: map[gedcom.Node]int{}, depth: map[gedcom.Node]int{}}
 	var walk func(n gedcom.Node, d int)
 	walk = func(n gedcom.Node, d int) {
-		s.ids[n] = len(s.nodes)
+		if _, seen := s.ids[n]; !seen { // an object that occurs twice is named after its first occurrence
+			s.ids[n] = len(s.nodes)
+		}
 		s.depth[n] = d
 		s.nodes = append(s.nodes, n)
 		for _, k := range n.Nodes() {
@@ -1500,6 +1682,7 @@ func init() {
 			c08case(c, "RESI chain", cl.Clone(), cr.Clone(), ops, 0)
 		}
 		_ = fixed
+		c08corpus(c)
 
 		// 1. every operation order up to length 4 on a few random pairs
 		nx := c.N(9, 60)
@@ -1551,7 +1734,7 @@ func init() {
 		}
 
 		// 2. random pairs, random orders
-		n := c.N(23000, 400000)
+		n := c.N(19000, 400000)
 		for i := 0; i < n; i++ {
 			a := g.root()
 			ops := g.randOps()
